@@ -797,6 +797,54 @@ def gen_reuse(rng):
             plan(rng.choice([200, 201, 404]), rheaders(rng, 2), rng.choice("bt"), gspec(rng, rng.choice([0, 4, 500]), 2))]
 
 
+def reuse_line(target, fl, hs, sends):
+    """sends: [(method, 'L'|'C', put kind '='|'b'|'t'|'f', bodyspec or None, plan text)]"""
+    t = ["reuse", hexs(target), fl, H(hs), str(len(sends))]
+    for method, fr, put, body, p in sends:
+        t += [hexs(method), fr, put]
+        if put != "=":
+            t.append(body)
+        t.append(p)
+    return " ".join(t)
+
+
+def gen_reuse_seq(rng, pattern=None):
+    """ONE HttpRequest object sent 2..5 times: between the sends the caller changes the method, the framing (a length /
+    Transfer-Encoding: chunked / back to a length), and puts a new body (other size, other kind) or keeps the one it has"""
+    t, path, qs, qd = rtarget(rng)
+    fl = rng.choice("DS")
+    hs = rheaders(rng, 3, empty=True)
+    k = len(pattern) if pattern else rng.randrange(2, 6)
+    sends = []
+    have = False
+    for j in range(k):
+        method = rng.choice([b"POST", b"PUT", b"GET", b"POST", b"PATCH", b"DELETE", b"GET"])
+        fr = pattern[j][0] if pattern else rng.choice("LC")
+        newput = pattern[j][1] == "p" if pattern else (rng.random() < (0.8 if not have else 0.35))
+        put, body = "=", None
+        if newput:
+            put = rng.choice("bbtf")
+            n = rng.choice([0, 1, 5, 100, 3000, 3000, 16001, rng.randrange(1, 40000)] + ([130000] if rng.random() < 0.1 else []))
+            body = gspec(rng, n, 2 if put == "t" else None) if n else "-"
+            have = True
+        pk = rng.choice(["n", "b", "b", "t", "f", "s"])
+        m = rng.choice([0, 1, 10, 500])
+        code = rng.choice(CODES)
+        phs = rheaders(rng, 2)
+        if code in (301, 302, 307, 308):
+            code = 200
+        if pk == "n":
+            p = plan(code, phs, "n")
+        elif pk in "bt":
+            p = plan(code, phs, pk, gspec(rng, m, 2 if pk == "t" else None))
+        elif pk == "f":
+            p = plan(code, phs, "f", gspec(rng, m), hexs(rng.choice(EXTS)))
+        else:
+            p = plan(code, phs, "s", gspec(rng, m), str(rng.randrange(1, 300)))
+        sends.append((method, fr, put, body, p))
+    return [reuse_line(t, fl, hs, sends)]
+
+
 def rheaders_n(rng, k):
     out = {}
     while len(out) < k:
@@ -907,6 +955,11 @@ def gen(rng, tier):
         cases.append(gen_expect(rng))
     for _ in range(3 if quick else 40):
         cases.append(gen_reuse(rng))
+    # one request object, several sends with the framing / body / method changed in between (seed C10-r4)
+    for pat in (["Lp", "C=", "L="], ["Cp", "L=", "C=", "L="], ["Lp", "Cp", "L=", "Lp", "C="]):
+        cases.append(gen_reuse_seq(rng, pat))
+    for _ in range(14 if quick else 400):
+        cases.append(gen_reuse_seq(rng))
     for k in ([3, 6, 12, None] if quick else [3, 6, 12] + [None] * 30):
         cases.append(gen_caller_dic(rng, k))
     for _ in range(2 if quick else 20):
@@ -929,7 +982,7 @@ def gen(rng, tier):
 def nontrivial(case):
     for l in case:
         t = l.split()
-        if t[0] in ("xchg", "cwire", "cread", "raw", "sockio", "dl") and len(t) > 3:
+        if t[0] in ("xchg", "cwire", "cread", "raw", "sockio", "dl", "reuse") and len(t) > 3:
             return True
     return False
 
@@ -950,6 +1003,8 @@ def distribution(cases):
               "kind:s/S nothing written": 0, "unframed stream to HTTP/1.0": 0, "unframed stream with 1xx/204/304": 0,
               "handler sets Transfer-Encoding + put()": 0, "handler sets Content-Type/Date on a file": 0,
               "upload (multipart)": 0, "upload through redirection": 0, "request object used again": 0,
+              "reuse: sends of one object": 0, "reuse: length after chunked, body kept": 0, "reuse: chunked after length, body kept": 0,
+              "reuse: new put() between sends": 0, "reuse: method changed between sends": 0,
               "refused framing q (9-digit chunk size)": 0, "refused: non-token field name / no colon (request)": 0,
               "refused: transfer coding not ending in chunked": 0, "refused response header block (cread/xchg)": 0,
               "raw mode d (late reader)": 0, "last response >= 2 MB behind unread request bytes": 0}
@@ -1068,6 +1123,22 @@ def distribution(cases):
                     branch["refused response header block (cread/xchg)"] += 1
                 if any("q" in tok and tok.startswith("ch") for tok in t[3:4]):
                     branch["refused framing q (9-digit chunk size)"] += 1
+            if t[0] == "reuse":
+                try:
+                    sends = _parse_reuse(t)[3]
+                except Exception:
+                    sends = []
+                branch["reuse: sends of one object"] += len(sends)
+                for a, b in zip(sends, sends[1:]):
+                    if b[2] == "=":
+                        if a[1] and not b[1]:
+                            branch["reuse: length after chunked, body kept"] += 1
+                        if b[1] and not a[1]:
+                            branch["reuse: chunked after length, body kept"] += 1
+                    else:
+                        branch["reuse: new put() between sends"] += 1
+                    if a[0] != b[0]:
+                        branch["reuse: method changed between sends"] += 1
             if t[0] == "xchg":
                 if len(t[3]) > 2 and t[3][2].isdigit():
                     branch["request object used again"] += 1
@@ -1470,6 +1541,54 @@ def _ref_xchg(t):
     return out
 
 
+def _parse_reuse(t):
+    """-> (target, D|S, base headers, [(method, chunked, put, body bytes, plan tokens)])"""
+    target, fl = unhex(t[1]), t[2]
+    hs, i = _hdrs(t, 3)
+    k = int(t[i])
+    i += 1
+    sends = []
+    for _ in range(k):
+        method, chunked, put = unhex(t[i]), t[i + 1] == "C", t[i + 2]
+        i += 3
+        body = b""
+        if put != "=":
+            body = body_of(t[i])
+            i += 1
+        assert t[i] == "P"
+        j = i + 2
+        ph, j = _hdrs(t, j)
+        pk = t[j]
+        j += 1 + {"n": 0, "b": 1, "t": 1, "f": 2, "s": 2}[pk]
+        sends.append((method, chunked, put, body, t[i:j]))
+        i = j
+    assert i == len(t)
+    return target, fl, hs, sends
+
+
+def _ref_reuse(t):
+    """the property, send by send: the handler sees the method the object had, the headers the caller set (plus the framing
+    header that goes with the framing asked for) and the body the object held at that time; the client sees the plan's answer.
+    No hidden state: each send is judged like a single exchange (`_ref_xchg`) of a fresh object in the same condition."""
+    target, fl, hs, sends = _parse_reuse(t)
+    outs = []
+    body, have = b"", False
+    for method, chunked, put, newbody, ptoks in sends:
+        if put != "=":
+            body, have = newbody, True
+        if have and not body and put == "=":
+            return None         # an empty body kept over sends: whether `Content-Length: 0` is still announced - no opinion
+        rh = list(hs) + ([(b"Transfer-Encoding", b"chunked")] if chunked else [])
+        toks = ["xchg", hexs(method), hexs(target), fl + "F", H(rh), "b" if have else "n"]
+        if have:
+            toks.append("x" + body.hex() if body else "-")
+        o = _ref_xchg(" ".join(toks).split() + list(ptoks))
+        if o is None:
+            return None
+        outs.append(o)
+    return " || ".join(outs)
+
+
 class _FakeSock:
     def __init__(self, data):
         import io
@@ -1540,6 +1659,8 @@ def reference(line):
     try:
         if t[0] == "xchg":
             return _ref_xchg(t)
+        if t[0] == "reuse":
+            return _ref_reuse(t)
         if t[0] == "cread":
             return _ref_cread(t)
         if t[0] == "par":
